@@ -283,6 +283,9 @@ def directed_cases():
     yield S("server", "peer-close", [peer_close_step(BADUTF8_PAYLOAD), ("local_write", "after-notify")])
     yield S("client", "peer-close", [peer_close_step(BADUTF8_PAYLOAD), ("local_write", "after-notify")])
     yield S("server", "local-close/silent", [("local_close", 1000, "x"), ("local_write", "after-local-close")])
+    # found by this check: client application writes after the library closed for a ping timeout
+    yield S("client", "ping/app-write-after-timeout-close",
+            [("sleep", 1.8), ("local_write", "after-ping-timeout-close"), ("sleep", 9.0)], ping=(1.0, 0.5))
 
 
 # ---------------------------------------------------------------------------
